@@ -3,6 +3,7 @@ package props
 import (
 	"fmt"
 	"go/ast"
+	"go/constant"
 	"go/token"
 	"go/types"
 	"regexp"
@@ -295,6 +296,9 @@ func checkC13(c *Ctx) {
 	// comparison that really runs: the visited test precedes the $ref resolution
 	checkRecursionGuard(c, "C13.R8.visited-order", pk)
 	checkLoopTotality(c, "C13.R10.loop-totality", pk, "diff", 30, diffLoopExits)
+	checkNoComparisonState(c, "C13.R8.no-shared-state", pk)
+	checkWidenessInclusion(c, "C13.R4.wideness-inclusion", pk)
+	checkPresencePure(c, "C13.R7.presence-pure", pk)
 	checkAccumulation(c, pk)
 	checkTwinShortcuts(c, "C13.R4.twin-shortcuts", r)
 	checkBothPresent(c, "C13.R4.both-present", r)
@@ -873,8 +877,10 @@ func checkComparedAsDeclared(c *Ctx, pk *packages.Package) {
 
 // diffLoopExits: the reviewed early exits and conditional collections of the diff package's loops over spec collections.
 var diffLoopExits = map[string]string{
-	"diff.getParams › loop over spec.Parameter #1 › conditional store #1": "‹spec.Parameter›.In == ‹string› ⇒ parameters of the location being compared (the caller loops over the five locations)",
-	"diff.getParams › loop over spec.Parameter #2 › conditional store #1": "‹spec.Parameter›.In == ‹string› ⇒ same, operation-level parameters",
+	"diff.SpecAnalyser.analyzeOperationExtensions › loop over diff.PathItemOp #1 › conditional store #1": "‹bool› ∧ !‹bool› ⇒ path-level extensions are compared once per path: the set of paths already done, filled under its own presence test",
+	"diff.SpecAnalyser.analyzeOperationExtensions › loop over diff.PathItemOp #2 › conditional store #1": "‹bool› ∧ !‹bool› ⇒ same, for deleted extensions",
+	"diff.getParams › loop over spec.Parameter #1 › conditional store #1":                                "‹spec.Parameter›.In == ‹string› ⇒ parameters of the location being compared (the caller loops over the five locations)",
+	"diff.getParams › loop over spec.Parameter #2 › conditional store #1":                                "‹spec.Parameter›.In == ‹string› ⇒ same, operation-level parameters",
 }
 
 // checkBothPresent: a difference that is only looked for when the attribute is present (non-nil,
@@ -1071,5 +1077,148 @@ func checkMediaCoverage(c *Ctx, rule string, pk *packages.Package) {
 	for _, want := range []string{"SwaggerProps.Consumes", "SwaggerProps.Produces", "OperationProps.Consumes", "OperationProps.Produces"} {
 		c.Check(owners[want], rule, "diff › "+want+" is diffed", "", "read in a function that calls DiffsTo",
 			want+" is never handed to the list comparison: a media type removed from that list is not reported")
+	}
+}
+
+// checkNoComparisonState: what the analyser learns about one spec must not outlive the
+// comparison or be shared between the two specs. A package-level variable written while
+// comparing (a cache keyed by $ref, by name) answers for spec 2 with what was computed for
+// spec 1 — the same $ref names a definition in both — and hides every change inside it.
+func checkNoComparisonState(c *Ctx, rule string, pk *packages.Package) {
+	c.Rule(rule, "the diff package writes no package-level variable outside initialisation (no cache shared between the two specs or between comparisons)", 1)
+	pkgs := []*packages.Package{pk}
+	initOnly := goan.InitOnly(pkgs)
+	n := 0
+	for _, gs := range goan.FindGlobalStores(pkgs) {
+		fn, _ := gs.Pkg.TypesInfo.Defs[gs.Fn.Name].(*types.Func)
+		n++
+		key := fmt.Sprintf("diff.%s › store to %s", gs.FnName, gs.Var.Name())
+		c.Check(fn != nil && initOnly[fn], rule, key, c.posOf(pk, gs.Pos), "runs only during package initialisation",
+			fmt.Sprintf("%s writes the package-level variable %s (%s) while comparing: the two specs (and successive comparisons) share it, so a lookup for the new spec can be answered with what was stored for the old one and the change between them is not seen", gs.FnName, gs.Var.Name(), gs.Kind))
+	}
+	if n == 0 {
+		c.Ok(rule, "diff › no store to package-level variables", "", "none found")
+	}
+}
+
+// Value ranges of the numeric type.format names of Swagger 2.0 (and of the aliases the table
+// uses): lo/hi as powers of two (sign, exponent) are enough to compare them.
+var numericRanges = map[string]struct {
+	lo, hi  float64
+	integer bool
+}{
+	"integer":        {-2.2e9, 2.2e9, true}, // no format: the table's own convention ranks it with int32 (the narrowest reading)
+	"long":           {-9.3e18, 9.3e18, true},
+	"integer.int64":  {-9.3e18, 9.3e18, true},
+	"integer.int32":  {-2.2e9, 2.2e9, true},
+	"integer.int16":  {-32768, 32767, true},
+	"integer.int8":   {-128, 127, true},
+	"integer.uint64": {0, 1.9e19, true},
+	"integer.uint32": {0, 4.3e9, true},
+	"integer.uint16": {0, 65535, true},
+	"integer.uint8":  {0, 255, true},
+	"number":         {-1.7e308, 1.7e308, false},
+	"double":         {-1.7e308, 1.7e308, false},
+	"number.double":  {-1.7e308, 1.7e308, false},
+	"float":          {-3.5e38, 3.5e38, false},
+	"number.float":   {-3.5e38, 3.5e38, false},
+}
+
+// checkWidenessInclusion: numberWideness ranks numeric types so that "rank did not decrease" can
+// be reported as compatible. That is sound only if the ranks respect inclusion of value sets: a
+// type ranked no higher than another accepts nothing the other rejects.
+func checkWidenessInclusion(c *Ctx, rule string, pk *packages.Package) {
+	c.Rule(rule, "numberWideness: rank(a) ≤ rank(b) only if every value of a is a value of b (ranges of the Swagger numeric formats); every row names a known format", 9)
+	rows := goan.Rows(load.PkgVarValue(pk, "numberWideness"))
+	if len(rows) == 0 {
+		c.Anchor(rule, "diff.numberWideness", "package-level map literal not found")
+		return
+	}
+	info := pk.TypesInfo
+	type row struct {
+		name string
+		rank int64
+		pos  token.Pos
+	}
+	var rs []row
+	for _, r := range rows {
+		k, ok := goan.StringVal(info, r.Key)
+		v := goan.ConstVal(info, r.Val)
+		if !ok || v == nil {
+			c.Unk(rule, "diff.numberWideness › row "+goan.ExprString(r.Key), c.posOf(pk, r.Key.Pos()), "row is not a constant")
+			continue
+		}
+		n, _ := constant.Int64Val(v)
+		rs = append(rs, row{k, n, r.Key.Pos()})
+	}
+	for _, a := range rs {
+		ra, known := numericRanges[a.name]
+		if !known {
+			c.Bad(rule, "diff.numberWideness › "+a.name, c.posOf(pk, a.pos), "the row names a type.format whose value range is not in the reference table: decide which types it includes and is included in")
+			continue
+		}
+		var bad []string
+		for _, b := range rs {
+			rb, ok := numericRanges[b.name]
+			if !ok || a.name == b.name || a.rank > b.rank {
+				continue
+			}
+			// a is ranked no wider than b: a ⊆ b must hold
+			if ra.lo < rb.lo || ra.hi > rb.hi || (!ra.integer && rb.integer) {
+				bad = append(bad, fmt.Sprintf("%s (rank %d)", b.name, b.rank))
+			}
+		}
+		c.Check(len(bad) == 0, rule, "diff.numberWideness › "+a.name, c.posOf(pk, a.pos), fmt.Sprintf("rank %d respects inclusion", a.rank),
+			fmt.Sprintf("%s has rank %d, not above %v, but accepts values those types reject: a change from %s to one of them narrows what a client may send and is reported as an equivalent or widened type (non-breaking)", a.name, a.rank, bad, a.name))
+	}
+}
+
+// checkPresencePure: "is this key of one spec present in the other" is answered by the lookup
+// alone. A second condition next to `!ok` (the new operation has a default response, the item is
+// optional, …) decides that some deletions or additions do not count, and those are not reported.
+func checkPresencePure(c *Ctx, rule string, pk *packages.Package) {
+	c.Rule(rule, "`if _, ok := M[k]; …` (value discarded) in the diff package is decided by ok alone (`ok` or `!ok`, no further condition)", 10)
+	info := pk.TypesInfo
+	for _, fd := range load.AllFuncs(pk) {
+		if fd.Body == nil {
+			continue
+		}
+		ord := 0
+		ast.Inspect(fd.Body, func(n ast.Node) bool {
+			ifs, ok := n.(*ast.IfStmt)
+			if !ok || ifs.Init == nil {
+				return true
+			}
+			as, ok := ifs.Init.(*ast.AssignStmt)
+			if !ok || len(as.Lhs) != 2 || len(as.Rhs) != 1 {
+				return true
+			}
+			ix, ok := ast.Unparen(as.Rhs[0]).(*ast.IndexExpr)
+			if !ok {
+				return true
+			}
+			if mt := info.TypeOf(ix.X); mt == nil {
+				return true
+			} else if _, isMap := mt.Underlying().(*types.Map); !isMap {
+				return true
+			}
+			okID, _ := as.Lhs[1].(*ast.Ident)
+			if okID == nil || okID.Name == "_" {
+				return true
+			}
+			if v, _ := as.Lhs[0].(*ast.Ident); v == nil || v.Name != "_" {
+				return true // the value is used: a comparison of values, not a presence test
+			}
+			okObj := info.ObjectOf(okID)
+			ord++
+			cond := ast.Unparen(ifs.Cond)
+			if ue, isNot := cond.(*ast.UnaryExpr); isNot && ue.Op == token.NOT {
+				cond = ast.Unparen(ue.X)
+			}
+			pure := identIs(info, cond, okObj)
+			c.Check(pure, rule, fmt.Sprintf("diff.%s › presence test #%d (%s) decided by the lookup alone", load.FuncName(fd), ord, types.TypeString(info.TypeOf(ix.X), func(*types.Package) string { return "" })), c.posOf(pk, ifs.Pos()), "condition "+goan.ExprString(ifs.Cond),
+				fmt.Sprintf("the presence test `%s` carries a second condition (%s): keys that are missing on the other side but fail it are treated as present, and their deletion or addition is not reported", goan.ExprString(as.Rhs[0]), goan.ExprString(ifs.Cond)))
+			return true
+		})
 	}
 }
